@@ -451,10 +451,17 @@ func c13(run *ev.Run, tier string) {
 			{Source: payload, Destination: "/etc/ovr/noreplace.conf", Type: "config|noreplace"},
 			{Source: payload, Destination: "/etc/ovr/missingok.conf", Type: "config|missingok"},
 			{Source: payload, Destination: "/etc/ovr/rpm-only.conf", Type: "config|noreplace", Packager: "rpm"},
+			// two different sources sent to the same directory destination
+			{Source: pre, Destination: "/opt/ovr/bin/"},
+			{Source: post, Destination: "/opt/ovr/bin/"},
 		}
 		c.Overrides = map[string]*nfpm.Overridables{
 			"archlinux": {ArchLinux: nfpm.ArchLinux{Scripts: nfpm.ArchLinuxScripts{PreUpgrade: pre, PostUpgrade: post}}},
 			"apk":       {Depends: []string{"apk-dep>1"}},
+			// {format}.arch inside an override block is taken as written, also when
+			// it is spelled like a GOARCH name
+			"ipk": {IPK: nfpm.IPK{Arch: "amd64"}},
+			"deb": {Deb: nfpm.Deb{Arch: "arm7"}},
 		}
 		y, _ := configYAML(c)
 		fresh := map[string][]byte{}
@@ -468,6 +475,16 @@ func c13(run *ev.Run, tier string) {
 			}
 			fresh[f] = res.Bytes
 			p := dec.Decode(f, res.Bytes, false)
+			if want := map[string]string{"ipk": "amd64", "deb": "arm7"}[f]; want != "" {
+				if got := decodedArch(f, p); got != want {
+					run.Violate("C13/"+f+"/format-specific-arch-from-override-not-verbatim", map[string]any{"got": got, "want": want})
+				}
+			}
+			for _, want := range []string{"/opt/ovr/bin/preupgrade.sh", "/opt/ovr/bin/postupgrade.sh", "/opt/ovr/p.txt"} {
+				if p.Find(want) == nil {
+					run.Violate("C13/"+f+"/entry-lost-from-effective-contents", map[string]any{"path": want, "has_override_block": c.Overrides[f] != nil})
+				}
+			}
 			switch f {
 			case "deb", "ipk":
 				if v, _ := p.MetaGet("Depends"); v != "libfoo (>= 1.2), plain, plain, libbar (<< 3)" {
@@ -620,6 +637,11 @@ func c13(run *ev.Run, tier string) {
 		for _, f := range formats {
 			c.Overrides[f] = &nfpm.Overridables{Depends: []string{"dep-for-" + f}}
 		}
+		// the architecture spelled for one format inside its override block
+		c.Overrides["deb"].Deb.Arch = "ovrdebarch"
+		c.Overrides["rpm"].RPM.Arch = "ovrrpmarch"
+		c.Overrides["apk"].APK.Arch = "ovrapkarch"
+		c.Overrides["ipk"].IPK.Arch = "ovripkarch"
 		y, _ := configYAML(c)
 		cfgp := filepath.Join(wd, "nfpm.yaml")
 		_ = os.WriteFile(cfgp, []byte(y), 0o644)
@@ -663,6 +685,27 @@ func c13(run *ev.Run, tier string) {
 					}
 					run.Violate("C13/cli/"+f+"/override-block-not-applied/"+kind, map[string]any{"got": got, "want": "dep-for-" + f})
 				}
+			}
+		}
+		// the file name the tool chooses itself reflects the override block as well
+		for _, f := range []string{"deb", "rpm", "apk", "ipk"} {
+			d := filepath.Join(wd, "named-"+f)
+			_ = os.MkdirAll(d, 0o755)
+			_, se, code, err := runCmd(nil, wd, nil, bin, "package", "-f", cfgp, "-p", f, "-t", d)
+			run.Case("cli-override|conventional-name|"+f, true)
+			es, _ := os.ReadDir(d)
+			if err != nil || code != 0 || len(es) != 1 {
+				run.Violate("C13/cli/"+f+"/build-failed", map[string]any{"target": "directory", "output": ev.Short(string(se), 300)})
+				continue
+			}
+			raw, _ := os.ReadFile(filepath.Join(d, es[0].Name()))
+			p := dec.Decode(f, raw, false)
+			if len(p.Errs) > 0 {
+				run.Violate("C13/cli/"+f+"/undecodable", map[string]any{"errors": p.Errs})
+				continue
+			}
+			if want := nameFromMetadata(f, p); es[0].Name() != want || !strings.Contains(want, "ovr"+f+"arch") {
+				run.Violate("C13/cli/"+f+"/override-block-not-applied/conventional-file-name", map[string]any{"file_name": es[0].Name(), "from_package_metadata": want, "override_arch": "ovr" + f + "arch"})
 			}
 		}
 		// other spellings of a packager name (-p DEB, target out.Rpm): rejecting
